@@ -1,7 +1,7 @@
 /-
   Lemmas about Ioc.Match (M3): a closed form of `resolveOne`.
   The pipeline of one injection point is split into named stages
-      discovered  →  admitted (qualifier)  →  survivors (self removal)  →  picked (choice loop)
+      discovered  →  qualified (qualifier)  →  survivors (self removal)  →  picked (choice loop)
   and `resolveOne_closed` shows that `resolveOne` is exactly their composition.  Nothing here changes the model;
   every stage is a sub-term of `narrow` / `resolveOne` given a name.
 -/
@@ -55,16 +55,16 @@ def incompatPred (byId : Nat → Option Prov) (k : Kind) (c : Nat) : Bool :=
   | none => true
 
 /-- candidates after the qualifier filter -/
-def admitted (pop : List Prov) (s : Slot) (v : Bytes) (a0 : Args) : List Nat :=
+def qualified (pop : List Prov) (s : Slot) (v : Bytes) (a0 : Args) : List Nat :=
   qualFilter (byId pop) (effArgs a0) (discovered pop s v (effArgs a0))
 
 /-- what the Primary / unnamed loop chooses from (single-valued points) -/
 def survivorsOf (pop : List Prov) (s : Slot) (v : Bytes) (a0 : Args) : List Nat :=
-  selfRemoved s.holder (admitted pop s v a0)
+  selfRemoved s.holder (qualified pop s v a0)
 
 /-- `prop.Injects` at the end of the iteration -/
 def picked (pop : List Prov) (s : Slot) (v : Bytes) (a0 : Args) : List Nat :=
-  if s.kind.isSlice then admitted pop s v a0
+  if s.kind.isSlice then qualified pop s v a0
   else match choose (byId pop) (survivorsOf pop s v a0) with
     | some c => [c]
     | none => []
@@ -279,17 +279,17 @@ theorem resolveOne_unfold (pop : List Prov) (s : Slot) (v : Bytes) (a0 : Args) (
   rw [hp]
   rfl
 
-/-- CLOSED FORM of `resolveOne`: a start-up error exactly when a required point has no admitted candidate;
+/-- CLOSED FORM of `resolveOne`: a start-up error exactly when a required point has no qualified candidate;
     otherwise the picked candidates, with the incompatible ones marked. -/
 theorem resolveOne_closed (pop : List Prov) (s : Slot) (v : Bytes) (a0 : Args) (hp : parse? s.tag = some (v, a0)) :
     resolveOne pop s =
-      if admitted pop s v a0 = [] ∧ isRequired a0 = true then none
+      if qualified pop s v a0 = [] ∧ isRequired a0 = true then none
       else some { cands := picked pop s v a0, slice := s.kind.isSlice, required := isRequired a0,
                   incompat := (picked pop s v a0).filter (incompatPred (byId pop) s.kind) } := by
   rw [resolveOne_unfold pop s v a0 hp, isRequired_effArgs]
-  by_cases he : admitted pop s v a0 = []
+  by_cases he : qualified pop s v a0 = []
   · have he' := he
-    unfold admitted discovered at he'
+    unfold qualified discovered at he'
     rw [narrow_empty _ _ _ _ _ he', isRequired_effArgs]
     have hpk : picked pop s v a0 = [] := by
       unfold picked survivorsOf
@@ -299,18 +299,18 @@ theorem resolveOne_closed (pop : List Prov) (s : Slot) (v : Bytes) (a0 : Args) (
     · simp [he, hpk]
     · simp [he]
   · have he' := he
-    unfold admitted discovered at he'
+    unfold qualified discovered at he'
     cases hs : s.kind.isSlice
     · have hk : s.kind.isSingle = true := by simp [Kind.isSingle, hs]
       obtain ⟨c, hc, hn⟩ := narrow_single (byId pop) s.holder s.kind (effArgs a0) _ hk he'
       rw [hn]
       have hpk : picked pop s v a0 = [c] := by
-        unfold picked survivorsOf admitted discovered
+        unfold picked survivorsOf qualified discovered
         rw [hs, hc]; rfl
       simp [he, hpk]
     · have hk : s.kind.isSingle = false := by simp [Kind.isSingle, hs]
       rw [narrow_slice (byId pop) s.holder s.kind (effArgs a0) _ hk he']
-      have hpk : picked pop s v a0 = admitted pop s v a0 := by
+      have hpk : picked pop s v a0 = qualified pop s v a0 := by
         unfold picked; rw [hs]; rfl
       simp only [he, false_and, if_false, hpk]
       rfl
